@@ -139,6 +139,7 @@ def build_inputs(case, out=None):
         opts = {"solver_options": {"eigenvalue_atol": 1e-9}}
     elif kpm:
         so = {"atol": c["kpm_atol"]} if c["kpm_atol"] is not None else {}
+        so["max_moments"] = 40000  # bound the expansion (library default 1e6): see props/c16.py
         if c["kpm_atol"] is None:
             labels.append("kpm-default-options")
         n_aux = min(c["n_aux"], n - nexp - 2) if c["solver"] == "kpm_aux" else 0
